@@ -56,7 +56,7 @@ def run(ctx):
         # accounting: every end of a turn / exit has the last block trimmed (or full)
         push = [c for c in walk(lb) if c.get('kind') == 'CXXMemberCallExpr' and call_name(c) == 'emplace_back' and canon(member_call_object(c)) == 'buffers']
         ctx.require(len(push) == 1, '%s: block push not found' % lab)
-        cap = canon(call_args(push[0])[0])
+        cap = nf(call_args(push[0])[0])
         ends = [x for x in walk(lb) if x.get('kind') in ('ContinueStmt', 'BreakStmt') and enclosing(x, LOOPS) is lp]
         dummy = None
         if falls_through(lb):
